@@ -77,7 +77,10 @@ def make_impl(base_cls, methods, bpk: BP, b: Build, rng_seed: int):
     def response_for(rep_mi, k):
         g = Gen(b, random.Random(f"resp-{rng_seed}-{rep_mi.full_name}-{k}"), max_depth=1)
         g.budget = 12
-        return bpk.make(rep_mi, g.tree(rep_mi, 0, "random"))
+        r = bpk.make(rep_mi, g.tree(rep_mi, 0, "random"))
+        if getattr(PLAN, "bulk", 0) and hasattr(r, "name"):
+            r.name = "y" * PLAN.bulk
+        return r
 
     def make(pyname, cs, ss, req_mi, rep_mi):
         if not cs and not ss:
@@ -180,8 +183,13 @@ async def drive(b: Build, shard, res: Result):
     call_ids = itertools.count(1)
     name = shard["item"].get("kind") + ":" + str(shard["item"].get("seed", shard["item"].get("dir", "")))
     for si, s in enumerate(b.services):
-        d = describe_service(b, s)
         w0 = {"item": shard["item"], "service": s.full_name}
+        try:
+            d = describe_service(b, s)
+        except Exception as e:
+            res.violation("generate", ["service-unusable", "raised:" + type(e).__name__, "-"],
+                          f"{name}: {s.full_name}: building the handler mapping of the generated Base raised {e!r}", w0)
+            continue
         if d is None:
             res.violation("generate", ["service-classes-missing", "-", "-"], f"{name}: {s.full_name}: Stub/Base not generated", w0)
             continue
@@ -232,6 +240,9 @@ async def drive(b: Build, shard, res: Result):
                 scenarios.append({"n_req": 1, "n_resp": 1, "src": "list", "error": grpclib.const.Status.NOT_FOUND, "error_after": 0})
                 if m["ss"]:
                     scenarios.append({"n_req": 1, "n_resp": 2, "src": "list", "error": grpclib.const.Status.ABORTED, "error_after": 1})
+                if m["cs"] and m["ss"] and shard["item"].get("kind") == "svcmatrix" and m["proto"] == "StreamStream":
+                    # volume beyond the HTTP/2 flow-control windows: sending and receiving must overlap
+                    scenarios.append({"n_req": 24, "n_resp": 24, "src": "list", "bulk": 400000})
                 for sc in scenarios:
                     await one_call(b, bpk, g, rng, stub_cls(channel), m, sc, res, dict(w0, method=m["proto"]), next(call_ids),
                                    seen_kwargs, seen_server_md, name, s)
@@ -241,6 +252,8 @@ async def drive(b: Build, shard, res: Result):
                     if shard["k"] < 3:
                         rng.shuffle(combos)
                         combos = combos[:16]
+                    combos = combos + [("set", None, "set", None, None, "empty"), (None, None, "set", None, None, "empty"),
+                                       ("set", "set", "set", "set", "set", "empty")]
                     for st, sd, sm, ct, cd, cm in combos:
                         await precedence_call(b, bpk, g, rng, stub_cls, channel, m, (st, sd, sm, ct, cd, cm), res, dict(w0, method=m["proto"]),
                                               next(call_ids), seen_kwargs, seen_server_md, name)
@@ -286,6 +299,9 @@ async def client_call(b, bpk, g, rng, stub, m, sc, call_kwargs):
 
     g.budget = 12
     reqs = [bpk.make(m["req_mi"], g.tree(m["req_mi"], 0, "random")) for _ in range(sc["n_req"])]
+    if sc.get("bulk"):
+        for r in reqs:
+            r.name = "x" * sc["bulk"]
     sent = [bytes(r) for r in reqs]
     fn = getattr(stub, m["pyname"])
     out = {"sent": sent, "responses": []}
@@ -327,13 +343,14 @@ async def one_call(b, bpk, g, rng, stub, m, sc, res: Result, w, cid, seen_kwargs
     PLAN.error_status = sc.get("error")
     PLAN.error_after = sc.get("error_after", 0)
     res.counters["calls"] += 1
-    scn = f"req{sc['n_req']}-resp{sc['n_resp']}-{sc['src']}" + (f"-err{sc['error'].name}@{sc['error_after']}" if sc.get("error") else "")
+    scn = f"req{sc['n_req']}-resp{sc['n_resp']}-{sc['src']}" + (f"-err{sc['error'].name}@{sc['error_after']}" if sc.get("error") else "") + ("-bulk" if sc.get("bulk") else "")
+    PLAN.bulk = sc.get("bulk", 0)
     res.distinct.add(f"{s.full_name}/{m['proto']}|{scn}")
     ww = dict(w, scenario=scn)
     try:
-        out = await asyncio.wait_for(client_call(b, bpk, g, rng, stub, m, sc, {}), timeout=20)
+        out = await asyncio.wait_for(client_call(b, bpk, g, rng, stub, m, sc, {}), timeout=40 if sc.get("bulk") else 20)
     except asyncio.TimeoutError:
-        res.violation("call", ["hang", _card(m), sc["src"]], f"{name}: {m['route']} [{scn}] did not finish", ww)
+        res.violation("call", ["hang", _card(m), sc["src"] + ("-bulk" if sc.get("bulk") else "")], f"{name}: {m['route']} [{scn}] did not finish", ww)
         return
     log = list(PLAN.log)
     card = _card(m)
@@ -378,16 +395,18 @@ async def precedence_call(b, bpk, g, rng, stub_cls, channel, m, combo, res: Resu
     from grpclib.metadata import Deadline
 
     st, sd, sm, ct, cd, cm = combo
+    # "empty" = a call-level value that is set but falsy (empty metadata): it still takes precedence
     vals = {
         "stub": {"timeout": 31.0 if st else None, "deadline": Deadline.from_timeout(41.0) if sd else None, "metadata": {"x-vf-level": "stub"} if sm else None},
-        "call": {"timeout": 32.0 if ct else None, "deadline": Deadline.from_timeout(42.0) if cd else None, "metadata": {"x-vf-level": "call"} if cm else None},
+        "call": {"timeout": 32.0 if ct else None, "deadline": Deadline.from_timeout(42.0) if cd else None,
+                 "metadata": ({} if cm == "empty" else {"x-vf-level": "call"}) if cm else None},
     }
     stub = stub_cls(channel, **vals["stub"])
     PLAN.call_id, PLAN.log = cid, []
     PLAN.n_responses, PLAN.error_status = 1, None
     res.counters["calls"] += 1
     res.counters["precedence_calls"] += 1
-    tag = "".join("S" if x else "-" for x in combo)
+    tag = "".join(("E" if x == "empty" else "S") if x else "-" for x in combo)
     res.distinct.add(f"{m['route']}|precedence:{tag}")
     ww = dict(w, scenario="precedence:" + tag)
     await client_call(b, bpk, g, rng, stub, m, {"n_req": 1, "n_resp": 1, "src": "list"}, vals["call"])
@@ -398,11 +417,11 @@ async def precedence_call(b, bpk, g, rng, stub_cls, channel, m, combo, res: Resu
     for key in ("timeout", "deadline", "metadata"):
         want = vals["call"][key] if vals["call"][key] is not None else vals["stub"][key]
         if kw.get(key) is not want and kw.get(key) != want:
-            which = "call-set" if vals["call"][key] is not None else ("stub-only" if vals["stub"][key] is not None else "neither")
+            which = ("call-set-but-empty" if not vals["call"][key] else "call-set") if vals["call"][key] is not None else ("stub-only" if vals["stub"][key] is not None else "neither")
             res.violation("precedence", [key, which, "wrong-value-passed-to-channel"],
                           f"{name}: {m['route']} [{tag}]: Channel.request got {key}={kw.get(key)!r}, expected {want!r}", ww)
     md = seen_server_md.get(cid)
-    want_md = vals["call"]["metadata"] or vals["stub"]["metadata"]
+    want_md = vals["call"]["metadata"] if vals["call"]["metadata"] is not None else vals["stub"]["metadata"]
     if md is not None:
         got = md["metadata"].get("x-vf-level")
         if (want_md or {}).get("x-vf-level") != got:
